@@ -21,6 +21,11 @@ func (s *subContext) GetMatch(idx int) string {
 	if idx >= 0 && idx < len(s.vals) {
 		return s.vals[idx]
 	}
+	if idx < 0 && s.parent != nil {
+		// never an element: pass on to the match, so that a stage touching the context
+		// to stay dynamic (eg. {time live}) is seen by static analysis in here too
+		return s.parent.GetMatch(idx)
+	}
 	return ""
 }
 
